@@ -12,4 +12,14 @@ TEXT = {
         "level_text": "Generated-input exploration with explicit oracles: byte order vs numeric (z,y,x) order for pairs of boundary-biased int32 coordinates; injectivity and round trip of the packed index over |c|<2^20; every RLE operation compared as a voxel set with a naive map; ROI answers compared with membership computed from the posted spans (incl. negative coordinates). The functions are pure/small so thousands of cases per second are explored; no absence claim.",
         "level_note": "Run coordinates are kept within +-2^30 (no int32 overflow of start+length); runs are non-overlapping as the property states; ROI block sizes 16 and 32 only.",
     },
+    "C01": {
+        "technique": "property-based testing (rapid): model-based — frontier resolver model over generated DAGs (free growth + lineage templates, all parent orders) x exhaustive entry placements; stateful HTTP histories vs the model",
+        "level_text": "Generated search against a reference resolver ('maximal entries among all-parent ancestors; unique live one wins; >=2 live => no success') on three layers: GetBestKeyVersion/VersionedKeyValue over synthetic key sets (3^n placements per DAG, permuted entry order), real Badger Put/Delete/batch + Get/Exists, and HTTP histories on versioned and unversioned keyvalue instances in two repos. Explores DAG shapes x placements the example tests fix to one point; not a proof.",
+        "level_note": "DAGs <= ~19 nodes (templates) / 10 nodes (free growth); placements exhaustive for n<=6, 300 sampled above; merge parents distinct and committed.",
+    },
+    "C05": {
+        "technique": "property-based testing (rapid): stateful histories with differential oracle (range/listing endpoints vs point reads) plus DAG model; boundary-steered bulk DeleteRange",
+        "level_text": "Generated histories over a prefix-related key universe on branched/merged DAGs, then every range consumer (4 storage-level, 7 HTTP variants incl. JSON/tar/protobuf) compared with point reads key by key, ascending and once each; DeleteRange followed by a full (key,node) sweep; a bulk test steers the number of deleted keys to the store's internal batch size and its multiples.",
+        "level_note": "10-key universe, <=~10 nodes; intervals containing an unresolved merge conflict may be refused and DeleteRange is not exercised over them.",
+    },
 }
